@@ -53,7 +53,7 @@ PROPS = {
                    extra=[S.verdict_stream_for("disabled", "disabled", "run", 60, 2000, flags="", shards=4, binary="vdisabled")]),
     "C17": sysprop(["C17"], ["mixed", "collect", "local", "default"], 250, 4000, GEN_RULE + "; the collect profile favours local collectors, "
                    "collection with open local spans, pushing one set under several parents and to_span_records"),
-    "C15": {"coq": ["C15"], "streams": [S.twins_stream], "replay_sub": "sys",
+    "C15": {"coq": ["C15"], "streams": [S.twins_stream, S.unescape_stream], "replay_sub": "sys",
             "rule": "catalogue of 13 function shapes (sync with early return / ? / panic / generic with lifetime / &mut self method; "
                     "async fn with in_span and with enter_on_poll; hand-written Box::pin forms with and without leading statements; "
                     "async-trait method) x attribute combinations (default path name, short_name, name, properties with {{ }} escapes "
@@ -88,5 +88,5 @@ PROPS = {
     "C04": sysprop(["C04"], ["cancelable", "default", "overload"], 250, 4000, GEN_RULE),
     "C08": sysprop(["C08"], ["mixed", "exit", "cancelable", "default"], 250, 4000, GEN_RULE),
     "C09": sysprop(["C09"], ["overload", "mixed"], 250, 4000, GEN_RULE),
-    "C10": sysprop(["C10"], ["local", "overload", "adapters"], 250, 4000, GEN_RULE),
+    "C10": sysprop(["C10", "C10_consts"], ["local", "overload", "adapters"], 250, 4000, GEN_RULE),
 }
